@@ -1024,4 +1024,233 @@ theorem invalid_firstPres (rep : Nat → Bool) (ha : AsciiRep rep) : FirstPres r
     (firstPres_seq_same (quote_same rep ha 34 (Or.inl rfl)) (strBody_firstPres rep ha 34 (Or.inl rfl)))
     (firstPres_seq_same (quote_same rep ha 39 (Or.inr rfl)) (strBody_firstPres rep ha 39 (Or.inr rfl)))
 
+
+/-! ## string bodies: STRING — the closing quote can only follow the greedy body -/
+
+theorem starMs_dead (q n e : Nat) (w : Cps) (h : isNl e = true) : Re.starMs (itemLens q) true n (e :: w) = [0] := by
+  cases n with
+  | zero => rfl
+  | succ n => exact starMs_stuck _ _ n (itemLens_nlhead q e w h)
+
+theorem nl_ne_quote (q e : Nat) (hq : q = 34 ∨ q = 39) (h : isNl e = true) : e ≠ q := by
+  have : e = 10 ∨ e = 13 ∨ e = 12 := by simpa [isNl, or_assoc] using h
+  omega
+
+theorem quote_not_hex (q : Nat) (hq : q = 34 ∨ q = 39) : isHex q = false := by
+  rcases hq with rfl | rfl <;> decide
+
+theorem after_first_digit_no_quote (q : Nat) (hq : q = 34 ∨ q = 39) (u : Cps) (n : Nat) (hn : u.length < n)
+    (hN : nlLens (u.drop (runLen isHex u 5)) ≠ []) :
+    ∀ l ∈ Re.starMs (itemLens q) true n u, (u.drop l).head? ≠ some q := by
+  have hqh := quote_not_hex q hq
+  rw [star_after_first_digit q hqh u n hn hN]
+  intro l hl
+  have hle := mem_countdown hl
+  obtain ⟨e, w, hew, he⟩ := nlLens_ne_nil_head _ hN
+  rcases Nat.lt_or_ge l (runLen isHex u 5) with h | h
+  · obtain ⟨d', u', hd, hp⟩ := runLen_drop_head isHex u 5 l h
+    rw [hd]
+    simp only [List.head?_cons, ne_eq, Option.some.injEq]
+    intro e'; subst e'; rw [hp] at hqh; cases hqh
+  · have : l = runLen isHex u 5 := by omega
+    subst this
+    rw [hew]
+    simp only [List.head?_cons, ne_eq, Option.some.injEq]
+    exact nl_ne_quote q e hq he
+
+/-- what is reached through a later alternative of the first item is never followed by the quote -/
+theorem item_alt_dead (q : Nat) (hq : q = 34 ∨ q = 39) (n : Nat) (x : Cps) (hn : x.length < n + 1)
+    (i1 : Nat) (irest : List Nat) (hI : itemLens q x = i1 :: irest) :
+    ∀ i2 ∈ irest, ∀ l ∈ Re.starMs (itemLens q) true n (x.drop i2), (x.drop (i2 + l)).head? ≠ some q := by
+  have hqh := quote_not_hex q hq
+  rcases x with _ | ⟨c, t⟩
+  · simp [itemLens] at hI
+  by_cases hc : c ≠ 92
+  · simp only [itemLens, if_pos hc] at hI
+    split at hI
+    · simp only [List.cons.injEq] at hI
+      obtain ⟨_, rfl⟩ := hI
+      intro i2 h; cases h
+    · cases hI
+  have hc : c = 92 := by simpa using hc
+  subst hc
+  rcases t with _ | ⟨d, u⟩
+  · simp [itemLens] at hI
+  by_cases hnl : isNl d = true
+  · have hd : d = 10 ∨ d = 13 ∨ d = 12 := by simpa [isNl, or_assoc] using hnl
+    rcases hd with rfl | rfl | rfl
+    · simp [itemLens, nlLens, isHex, isNl] at hI
+      obtain ⟨_, rfl⟩ := hI
+      intro i2 h; cases h
+    · by_cases hu : u.head? = some 10
+      · simp [itemLens, nlLens, isHex, isNl, hu] at hI
+        obtain ⟨_, rfl⟩ := hI
+        intro i2 hi2 l hl
+        simp only [List.mem_singleton] at hi2
+        subst hi2
+        rcases u with _ | ⟨e, w⟩
+        · simp at hu
+        · simp only [List.head?_cons, Option.some.injEq] at hu
+          subst hu
+          simp only [List.drop_succ_cons, List.drop_zero] at hl
+          rw [starMs_dead q n 10 w (by decide)] at hl
+          simp only [List.mem_singleton] at hl
+          subst hl
+          simp only [Nat.add_zero, List.drop_succ_cons, List.drop_zero, List.head?_cons, ne_eq, Option.some.injEq]
+          omega
+      · simp [itemLens, nlLens, isHex, isNl, hu] at hI
+        obtain ⟨_, rfl⟩ := hI
+        intro i2 h; cases h
+    · simp [itemLens, nlLens, isHex, isNl] at hI
+      obtain ⟨_, rfl⟩ := hI
+      intro i2 h; cases h
+  · have hnl' : isNl d = false := by simpa using hnl
+    by_cases hh : isHex d = true
+    · have hIL : itemLens q (92 :: d :: u) =
+          ((nlLens (u.drop (runLen isHex u 5))).map fun x => 1 + (1 + runLen isHex u 5 + x)) ++ [2] := by
+        simp [itemLens, nlLens_hex d u hh, hh, hnl']
+      rw [hIL] at hI
+      have hulen : u.length < n := by simp at hn; omega
+      by_cases hN : nlLens (u.drop (runLen isHex u 5)) = []
+      · rw [hN] at hI
+        simp only [List.map_nil, List.nil_append, List.cons.injEq] at hI
+        obtain ⟨_, rfl⟩ := hI
+        intro i2 h; cases h
+      · have h2 := after_first_digit_no_quote q hq u n hulen hN
+        obtain ⟨e, w, hew, he⟩ := nlLens_ne_nil_head _ hN
+        intro i2 hi2 l hl
+        -- the alternatives after the first: `\` hex+ CR (when CR LF follows), and `\` first digit
+        have hcases : i2 = 2 ∨ (i2 = runLen isHex u 5 + 3 ∧ ∃ w', w = 10 :: w') := by
+          rw [hew] at hI
+          simp only [nlLens] at hI
+          split at hI
+          · simp only [List.map_cons, List.map_nil, List.cons_append, List.nil_append, List.cons.injEq] at hI
+            obtain ⟨_, rfl⟩ := hI
+            simp only [List.mem_singleton] at hi2
+            exact Or.inl hi2
+          · split at hI
+            · split at hI
+              · rename_i hw
+                simp only [List.map_cons, List.map_nil, List.cons_append, List.nil_append, List.cons.injEq] at hI
+                obtain ⟨_, rfl⟩ := hI
+                simp only [List.mem_cons, List.not_mem_nil, or_false] at hi2
+                rcases hi2 with rfl | rfl
+                · right
+                  refine ⟨by omega, ?_⟩
+                  rcases w with _ | ⟨f, w'⟩
+                  · simp at hw
+                  · simp only [List.head?_cons, Option.some.injEq] at hw
+                    subst hw; exact ⟨w', rfl⟩
+                · exact Or.inl rfl
+              · simp only [List.map_cons, List.map_nil, List.cons_append, List.nil_append, List.cons.injEq] at hI
+                obtain ⟨_, rfl⟩ := hI
+                simp only [List.mem_singleton] at hi2
+                exact Or.inl hi2
+            · split at hI
+              · simp only [List.map_cons, List.map_nil, List.cons_append, List.nil_append, List.cons.injEq] at hI
+                obtain ⟨_, rfl⟩ := hI
+                simp only [List.mem_singleton] at hi2
+                exact Or.inl hi2
+              · simp only [List.map_nil, List.nil_append, List.cons.injEq] at hI
+                obtain ⟨_, rfl⟩ := hI
+                cases hi2
+        rcases hcases with rfl | ⟨rfl, w', rfl⟩
+        · simp only [List.drop_succ_cons, List.drop_zero] at hl
+          have := h2 l hl
+          rw [show (92 :: d :: u).drop (2 + l) = u.drop l from by
+            rw [Nat.add_comm]; simp [List.drop_succ_cons]]
+          exact this
+        · have hd3 : (92 :: d :: u).drop (runLen isHex u 5 + 3) = 10 :: w' := by
+            rw [show runLen isHex u 5 + 3 = (runLen isHex u 5 + 1) + 1 + 1 from by omega]
+            simp only [List.drop_succ_cons]
+            rw [← List.drop_drop, hew]
+            rfl
+          rw [hd3, starMs_dead q n 10 w' (by decide)] at hl
+          simp only [List.mem_singleton] at hl
+          subst hl
+          rw [Nat.add_zero, hd3]
+          simp only [List.head?_cons, ne_eq, Option.some.injEq]
+          omega
+    · have hh' : isHex d = false := by simpa using hh
+      simp [itemLens, hh', hnl'] at hI
+      have hnil : nlLens (d :: u) = [] := by
+        simp only [nlLens]
+        have : d ≠ 10 ∧ d ≠ 13 ∧ d ≠ 12 := by
+          simp only [isNl, Bool.or_eq_false_iff, beq_eq_false_iff_ne] at hnl'
+          omega
+        split
+        · omega
+        · split
+          · omega
+          · split
+            · omega
+            · rfl
+      rw [hnil] at hI
+      simp only [List.map_nil, List.nil_append, List.cons.injEq] at hI
+      obtain ⟨_, rfl⟩ := hI
+      intro i2 h; cases h
+
+theorem starMs_item_tight (q : Nat) (hq : q = 34 ∨ q = 39) : ∀ (n : Nat) (x : Cps), x.length < n →
+    ∀ l ls, Re.starMs (itemLens q) true n x = l :: ls → ∀ l' ∈ ls, (x.drop l').head? ≠ some q := by
+  intro n
+  induction n with
+  | zero => intro x h; omega
+  | succ n ih =>
+    intro x hx l ls hm l' hl'
+    have hfil : (itemLens q x).filter (fun y => decide (y > 0)) = itemLens q x :=
+      List.filter_eq_self.mpr (fun l hl => by simpa using itemLens_pos q x l hl)
+    simp only [Re.starMs, if_true, hfil] at hm
+    cases hI : itemLens q x with
+    | nil =>
+      rw [hI] at hm
+      simp only [List.flatMap_nil, List.nil_append, List.cons.injEq] at hm
+      obtain ⟨_, rfl⟩ := hm
+      cases hl'
+    | cons i1 irest =>
+      rw [hI] at hm
+      have hi1 : i1 ∈ itemLens q x := by rw [hI]; simp
+      have hpos := itemLens_pos q x i1 hi1
+      have hbd := Re.ms_bounded (itemRe q) x i1 (by rw [item_ms]; exact hi1)
+      simp only [List.flatMap_cons] at hm
+      cases hS : Re.starMs (itemLens q) true n (x.drop i1) with
+      | nil => exact absurd hS (starMs_ne_nil _ _ _ _)
+      | cons h hs =>
+        rw [hS] at hm
+        simp only [List.map_cons, List.cons_append, List.cons.injEq] at hm
+        obtain ⟨_, rfl⟩ := hm
+        simp only [List.mem_append, List.mem_map, List.mem_flatMap, List.mem_singleton] at hl'
+        rcases hl' with (⟨l'', h1, rfl⟩ | ⟨i2, hi2, l'', h2, rfl⟩) | rfl
+        · have := ih (x.drop i1) (by simp only [List.length_drop]; omega) h hs hS l'' h1
+          rwa [List.drop_drop] at this
+        · exact item_alt_dead q hq n x hx i1 irest hI i2 hi2 l'' h2
+        · rcases x with _ | ⟨c, t⟩
+          · simp
+          · simp only [List.drop_zero, List.head?_cons, ne_eq, Option.some.injEq]
+            intro e
+            have : itemLens q (q :: t) = [] := by
+              have h92 : q ≠ 92 := by omega
+              have : ordinary q q = false := by simp [ordinary]
+              simp [itemLens, h92, this]
+            rw [e, this] at hI; cases hI
+
+theorem strBody_tight (q : Nat) (hq : q = 34 ∨ q = 39) : Tight (strBody q) (Re.cls false [(q, q)]) := by
+  intro x _ l ls hm l' hl'
+  rw [strBody_ms] at hm
+  have := starMs_item_tight q hq _ x (Nat.lt_succ_self _) l ls hm l' hl'
+  cases hd : x.drop l' with
+  | nil => simp [Re.ms]
+  | cons c t =>
+    rw [hd] at this
+    simp only [List.head?_cons, ne_eq, Option.some.injEq] at this
+    simp [Re.ms, inCls_single, this]
+
+/-- STRING keeps its first match -/
+theorem string_firstPres (rep : Nat → Bool) (ha : AsciiRep rep) : FirstPres rep reSTRING := by
+  rw [reSTRING_shape]
+  have h := fun q (hq : q = 34 ∨ q = 39) =>
+    firstPres_seq_same (quote_same rep ha q hq)
+      (firstPres_seq_det (strBody_firstPres rep ha q hq) (firstPres_of_same (quote_same rep ha q hq))
+        (seqDet_of_tight (strBody_tight q hq)))
+  exact firstPres_alt (h 34 (Or.inl rfl)) (h 39 (Or.inr rfl))
+
 end CssVerif.EncTok
